@@ -86,7 +86,7 @@ prop('C07', SERVER_TOO, title='Deadlines propagate across hops without stretchin
      level_note='Codecs carrying a Duration faithfully and serde_derive\'s default handling are assumed (A-codec).',
      not_covered='context::current() inside a handler without an OpenTelemetry layer; the derived Context::deserialize with the field omitted')
 prop('C09', SERVER_TOO, title='Transport failures are contained and reported',
-     verus=['client'], technique=TECH_V,
+     verus=['client'], native=['complete_all_bounded', 'drop_aborts_bounded'], technique=TECH_V + '; bounded native stand-ins for the two functions cut to assumed contracts',
      assumptions=COMMON_V + ['A-sink', 'A-oneshot', 'A-mpsc', 'A-delayqueue'],
      level_text='Proof that each transport wrapper tags a failure with its activity and that the tag survives `?` up to run(); that a failed request write removes and fails only that call and is not fatal; that start_send is never reached after a reported failure (its precondition); panic freedom of every extracted function (expect/unwrap/DelayQueue preconditions discharged).',
      level_note='shut_down_with_terminal_error is under contract (every queued caller with an open receiver is delivered the channel error; only channel errors are delivered; the transport is not touched again) with complete_all_requests cut to an ASSUMED contract (R11: impl Iterator over a draining map). Server: BaseChannel/Requests error tagging and containment are proved in unit server.',
@@ -163,7 +163,7 @@ prop('C19', title='Request hooks run in order and short-circuit correctly',
      level_note='The one-poll executor makes a suspending hook out of scope (hooks whose futures return Pending are resumed by the same state machine; not modelled). Unwinding assertions are on.',
      not_covered='hooks that suspend; `then_fn` closure adaptor (forwards to then)')
 prop('C20', title='Load-balancing and retry stubs keep their dispatch promises',
-     kani=['k5_cycle_next_is_counter_mod_len', 'k5_round_robin_call_uses_next', 'k5_consistent_hash_valid_and_stable', 'k5_serve_as_stub_passes_through'],
+     kani=['k5_cycle_next_is_counter_mod_len', 'k5_cycle_next_upto8', 'k5_round_robin_call_uses_next', 'k5_consistent_hash_valid_and_stable', 'k5_serve_as_stub_passes_through'],
      native=['retry_bounded'],
      technique=TECH_K + '; Retry::call: bounded native stand-in (exhaustive to 5 attempts)',
      assumptions=['A-verifiers', 'A-ids'],
